@@ -864,7 +864,16 @@ class Explore:
         self.fn = fn
         self.terms = Terms(fn)
         self.assume = dict(assume or {})
-        self.tracked = tuple(tracked)
+        # besides the requested locals, follow every unnamed bool temporary that is only ever assigned constants
+        # (drop flags, the result temporaries of `matches!`, `&&`, `||`): their switches are then decided exactly
+        auto = []
+        for l, decl in enumerate(fn.locals):
+            if l <= fn.arg_count or decl.get("name") or decl["ty"] != "bool" or l in tracked:
+                continue
+            d = fn.defs().get(l, [])
+            if d and all(r["k"] == "use" and r["op"]["k"] == "const" and "int" in r["op"] for (_, _, r) in d):
+                auto.append(l)
+        self.tracked = tuple(tracked) + tuple(auto)
         self.tries = tries
         self.try_locals = try_branch_locals(fn)
         self.visited = set()  # (bb, state)
@@ -950,6 +959,8 @@ class Explore:
             return self._value_of(r["op"], state)
         if r is None:
             return self._value_of(t["d"], state)
+        if r["k"] == "use" and r["op"]["k"] == "const" and "int" in r["op"]:
+            return r["op"]["int"]
         key = self.terms.rvalue(r)
         return self.assume.get(key)
 
